@@ -77,6 +77,7 @@ type Gen struct {
 	resolverURLs        []string
 	modules             map[string]bool
 	Panics              int
+	boundaryStartUsed   bool
 	quiet               bool // suppress per-field hostility (multi-entry messages must have a chance to succeed)
 }
 
@@ -261,7 +262,9 @@ func (g *Gen) amountUpTo(avail *big.Rat) string {
 		avail = new(big.Rat)
 	}
 	if g.hostile() {
-		switch g.R.Intn(6) {
+		switch g.R.Intn(7) {
+		case 6:
+			return g.overPrecise()
 		case 0:
 			return junkAmounts[g.R.Intn(len(junkAmounts))]
 		case 1: // overdraw by the smallest unit
@@ -308,8 +311,17 @@ func (g *Gen) amountUpTo(avail *big.Rat) string {
 }
 
 // issueAmount generates an issuance amount (free magnitude).
+// overPrecise: one decimal place more than the credit type allows (accepted by ValidateBasic, which
+// cannot know the precision; must be rejected by every handler).
+func (g *Gen) overPrecise() string {
+	return fmt.Sprintf("%d.%06d%d", g.R.Intn(50), g.R.Intn(1000000), 1+g.R.Intn(9))
+}
+
 func (g *Gen) issueAmount() string {
 	if g.hostile() && g.chance(0.5) {
+		if g.chance(0.4) {
+			return g.overPrecise()
+		}
 		return junkAmounts[g.R.Intn(len(junkAmounts))]
 	}
 	if g.chance(g.P.Extreme) {
